@@ -292,21 +292,49 @@ def gen_history(rng, model, quick):
         return rng.choice([(0, 0, 0), (0, 1, 2), (1, 0, 1), (-1, 0, 2), (0, -1, 0), (1, -2, 0), (2, 1, -1), (0, 0, 1)]) if rng.random() < 0.7 \
             else tuple(rng.randint(-3, 3) for _ in range(3))
     hs, seen, sets = [], [], []
+
+    def pick():
+        if seen and rng.random() < 0.75:
+            return rng.choice(aliases(rng.choice(seen)))
+        return rq()
+
+    def newset():
+        s = list(rng.choice(sets)) if sets and rng.random() < 0.45 else rset()     # the same set again / another set
+        sets.append(s)
+        seen.extend(s if s else [rq()])
+        return s
+
+    if rng.random() < 0.55:
+        # structured: rounds of bulk preparation and computation, evaluations of listed keys and their aliases, on-demand use afterwards
+        for _ in range(rng.randint(1, 3)):
+            if rng.random() < 0.15:
+                hs.append(("fill", newset()))
+            hs.append(("prep", newset()))
+            if rng.random() < 0.3:
+                hs.append(("prep", newset()))
+            if rng.random() < 0.2:
+                hs.append(rng.choice([("lookup", pick()), ("eval", pick(), rtriple()), ("prepelem", pick())]))
+            hs.append(("compall", rng.choice([0, 1, 1])))
+            for _ in range(rng.randint(1, 3)):
+                hs.append(("eval", pick(), rtriple()))
+            if rng.random() < 0.5:
+                q = rq()
+                seen.append(q)
+                for o in [("lookup", q), ("eval", q, rtriple()), ("prepelem", q), ("compelem", q), ("eval", rng.choice(aliases(q)), rtriple())]:
+                    if rng.random() < 0.7:
+                        hs.append(o)
+            if rng.random() < 0.25:
+                hs.append(("compall", rng.choice([0, 1])))
+                hs.append(("eval", pick(), rtriple()))
+        return hs
+
     n = rng.randint(3, 9 if quick else 14)
     for _ in range(n):
         x = rng.random()
-        def pick():
-            if seen and rng.random() < 0.75:
-                return rng.choice(aliases(rng.choice(seen)))
-            return rq()
         if x < 0.22:
-            s = list(rng.choice(sets)) if sets and rng.random() < 0.45 else rset()     # repeated prepareAll with the same / another set
-            sets.append(s); seen += s
-            hs.append(("prep", s))
+            hs.append(("prep", newset()))
         elif x < 0.29:
-            s = list(rng.choice(sets)) if sets and rng.random() < 0.4 else rset()
-            sets.append(s); seen += s
-            hs.append(("fill", s))
+            hs.append(("fill", newset()))
         elif x < 0.45:
             hs.append(("compall", rng.choice([0, 1, 1])))
         elif x < 0.52:
@@ -406,7 +434,7 @@ def run(chk):
 
     stats = {"histories": 0, "agree_unrepaired": 0, "agree_repaired": 0, "agree_neither": 0, "property_violations": 0}
     disagreements, violating = [], []
-    nrand = {"hubbard-atom": 70 if quick else 400, "two-site": 40 if quick else 250}
+    nrand = {"hubbard-atom": 120 if quick else 600, "two-site": 60 if quick else 300}
     for model in MODELS:
         name, scen, nidx, sub = model
         runner = Runner(env, model)
